@@ -68,4 +68,5 @@ def v2000_styles(draw, rich=True):
     s["bond_extras"] = draw(st.booleans())
     s["zero_entries"] = draw(st.sampled_from([False, False, True]))
     s["text_after_end"] = draw(st.sampled_from([False, False, True]))
+    s["interleave"] = draw(st.sampled_from([False, False, True]))
     return s
